@@ -264,9 +264,11 @@ def run(mon: Monitor, tier: str, seed: int, shard: int, nshards: int) -> None:
 
         for (c1, tgt, lo0, la0, lo1, la1) in [("EPSG:4326", "EPSG:3035", 0, 42, 25, 62), ("EPSG:4326", "EPSG:3577", 120, -38, 148, -14), ("EPSG:3857", "EPSG:3035", 0, 42, 25, 62),
                                                ("EPSG:4326", "utm", 10, 40, 20, 60), ("EPSG:6933", "EPSG:2193", 168, -45, 177, -36), ("EPSG:4326", "EPSG:32633", 12.5, 20, 17.5, 60)]:
-            r = random.Random(rng.getrandbits(48))
-            src, _w = gen.window_geobox(r, (c1, lo0, la0, lo1, la1), npix=(800, 700), extent_deg=min(4.0, (lo1 - lo0) * 0.44), fam=r.choice(["north-up", "rotated"]))
-            call(compute_output_geobox, src, tgt, resolution=r.choice(["auto", "fit"]))
+            # north-up sources are the ones whose added outline points are exactly collinear (C11-3); both a tile-sized and a region-sized extent
+            for fam, ext in (("north-up", 4.0), ("north-up", 14.0), ("rotated", 4.0)):
+                r = random.Random(rng.getrandbits(48))
+                src, _w = gen.window_geobox(r, (c1, lo0, la0, lo1, la1), npix=(800, 700), extent_deg=min(ext, (lo1 - lo0) * 0.44, (la1 - la0) * 0.44), fam=fam)
+                call(compute_output_geobox, src, tgt, resolution=r.choice(["auto", "fit"]))
         for pt, n in [("compute_output_geobox", 350), ("compute_output_geobox|auto|north-up|cross", 20), ("compute_output_geobox|fit|north-up|cross", 10), ("compute_output_geobox|same|north-up|cross", 10),
                       ("compute_output_geobox|explicit|north-up|cross", 10), ("compute_output_geobox|auto|rotated|cross", 8), ("compute_output_geobox|auto|north-up|utm", 5),
                       ("compute_output_geobox|shape|north-up|cross", 2), ("compute_output_geobox|shape|north-up|cross|int", 2), ("compute_output_geobox|identity", 10), ("compute_output_geobox|shape+resolution|north-up|cross", 2)]:
